@@ -219,6 +219,9 @@ def r4_codec_pairs(ctx, krate="cascette_formats", floor=2):
 
 
 def run(ctx):
+    # E-bitfield (rules/bitfield.py): the fields of a packed word partition it (mask == 2^shift - 1)
+    from . import bitfield
+    bitfield.rule_bitfields(ctx, "C08.R5", ["cascette_formats"], floor=3)
     r4_codec_pairs(ctx)
     r1_no_silent_narrowing(ctx)
     # R2 = E-count (rules/redundant.py): a stored count that some body assigns from the length of a sibling Vec is re-written after every operation
